@@ -75,8 +75,8 @@ macro_rules! expand_backend {
                 let mut res: GGSW<Vec<u8>> = GGSW::alloc_from_infos(&res_infos);
                 for r in 0..c.dnum {
                     for ci in 0..c.rank + 1 {
-                        for x in res.at_mut(r, ci).data_mut().raw_mut().iter_mut() {
-                            *x = 0x7777;
+                        for (i, x) in res.at_mut(r, ci).data_mut().raw_mut().iter_mut().enumerate() {
+                            *x = crate::fillpat::pat(0x7777, i + 977 * (r * 16 + ci));
                         }
                     }
                 }
@@ -303,6 +303,7 @@ pub fn run(_args: &[String]) {
     let mut out = stdout.lock();
     for line in stdin.lock().lines() {
         let line = line.unwrap();
+        crate::fillpat::set_from_line(&line);
         let t: Vec<&str> = line.split_whitespace().collect();
         if t.is_empty() {
             continue;
